@@ -49,6 +49,13 @@ class C13(Harness):
             # the namespace must already agree with attribute access while a watcher of the class-level assignment runs
             if world:
                 inside.extend(self.invariant(world, ['<inside a class-level watcher>'], passive=True))
+                for e in events:
+                    # "watching sees the same values as getattr": what the watcher is told is what attribute access gives on that class / instance
+                    holder = e.obj if e.obj is not None and not isinstance(e.obj, type) else e.cls
+                    got = getattr(holder, e.name)
+                    if e.type == 'changed' and got != e.new:
+                        inside.append(V('watcher-sees-other-value', 'inside a watcher told that %s.%s became %r, getattr gives %r' % (
+                            getattr(holder, '__name__', 'instance'), e.name, e.new, got), name=e.name, level='class' if isinstance(holder, type) else 'instance'))
         A.param.watch(class_watcher, ['x', 'y'])
         world.update({'param': param, 'A': A, 'B': B, 'C': C, 'B2': B2, 'D': D, 'inst': [], 'inside': inside})
         return world
